@@ -816,6 +816,29 @@ func matrix(r *runner) {
 	}
 }
 
+// ------------------------------------------------------------ known stream
+
+// A method parameter declared with the type parameter (`function take(T $x)`) is not a member the
+// model covers: the code never substitutes it (data.Generic.Is answers true for every value), so
+// it is unenforced for every instantiation, independently of any history. Confirmed each run.
+const sigParam = "gen:param-unenforced"
+
+func knownStream(c *vh.Ctx) {
+	src := "<?php\nclass KBox<T> { public T $p0; public function take(T $x) { return 1; } }\n" +
+		"$b = new KBox<int>();\n" +
+		"try { $b->take(\"s\"); echo \"\\n0:ok\\n\"; } catch (\\Throwable $e) { echo \"\\n0:ERR:\", $e->getMessage(), \"\\n\"; }\n" +
+		"try { $b->take(7); echo \"\\n1:ok\\n\"; } catch (\\Throwable $e) { echo \"\\n1:ERR:\", $e->getMessage(), \"\\n\"; }\n"
+	out := outcomes(vh.RunFresh(src), 2)
+	c.Hit("known-stream:param:" + out[0])
+	if out[1] != "ok" {
+		c.Mismatch(map[string]any{"kind": "param", "script": src}, strings.Join(out, " "), "? ok", "known stream: a method parameter declared T no longer accepts a value of the instance's own type argument")
+		return
+	}
+	if out[0] == "ok" {
+		c.Violation(sigParam, "class KBox<T> { function take(T $x) … }: (new KBox<int>())->take(\"s\") is accepted — parameters declared with the type parameter are not checked against the instantiation's type argument (data.Generic.Is is a TODO that answers true)", map[string]any{"kind": "param"})
+	}
+}
+
 // ------------------------------------------------------------ runner
 
 func Run(c *vh.Ctx) {
@@ -831,6 +854,13 @@ func Run(c *vh.Ctx) {
 		}
 	}
 	if len(c.ReplayRaw) > 0 {
+		var kd struct {
+			Kind string `json:"kind"`
+		}
+		if json.Unmarshal(c.ReplayRaw, &kd) == nil && kd.Kind == "param" {
+			knownStream(c)
+			return
+		}
 		var g gcase
 		if err := json.Unmarshal(c.ReplayRaw, &g); err != nil || !valid(g) {
 			c.Note("bad replay: %v", err)
@@ -841,6 +871,7 @@ func Run(c *vh.Ctx) {
 		return
 	}
 	c.Res.Rule = "a case = one history over the catalogue Box<T>, Pair<K,V>, CBox<T> (constructor stores its argument), Swap<A,B>, run as one script on a fresh VM; non-trivial = at least two objects of the same generic class created with different type arguments and at least one typed write; distinct = distinct operation sequence incl. write form"
+	knownStream(c)
 	for _, g := range witnesses() {
 		r.add(g)
 	}
@@ -866,7 +897,7 @@ func Run(c *vh.Ctx) {
 		}
 	}
 	// seeded longer / mixed histories
-	for i := 0; i < c.N(4000, 100000) && !r.stopped; i++ {
+	for i := 0; i < c.N(3000, 200000) && !r.stopped; i++ {
 		r.add(randomCase(c.Rand, c.Rand.Range(4, 9)))
 	}
 	r.flush()
